@@ -8,6 +8,13 @@ spec/AssemblyCheck.tla  TLC judges the dumps of the real assemblers: sparsity co
                         symmetry, kernel, MassSum = Volume, Bilinear(u,v) / functional values as exact scaled integers (V)
 harness/c16_assembly_*.cpp (common/vasm16*.hpp)  execute the jobs on the real classes and measure
 harness/c16_assembly_2l.cpp  two-level (inter-mesh) patterns on permuted meshes + couplings of the grid transfer (TwoLevelVerdict)
+
+Matrix-free routes (spec/Assembly.tla: MatrixFreeRoutes; executed by the special-route binaries c16_assembly_s*): BilinearOperatorAssembler::
+apply1 / apply2 with blocked value types (Identity/Laplace/DuDvOperatorBlocked and the user operator ugrad_b whose blocks have no
+symmetry), BurgersAssembler::assemble_vector, Burgers{Blocked,Scalar}VectorAssemblyJob (also with solution == convection vector),
+VoxelBurgersAssembler::assemble_vector, GradOperatorAssembler::assemble(vector): ApplyEqualsMatVec (= the matrix of the reference route
+times the vector), RepeatSemantics (overwrite / accumulate) and ApplyBilinear (EXACT scaled integers of (v e_row)^T r(P) for the
+probe fields P of the catalogue, which the specification proves (ProbeLaw) to separate every operator from its block-transpose).
 """
 import json, os, shutil, glob, time
 import concurrent.futures as cf
@@ -116,12 +123,12 @@ def gen_plans(chk, tier):
         cfg = "gen_c16_%d_%s%d.cfg" % (os.getpid(), shape, dim)
         with open(os.path.join(vlib.SPEC, cfg), "w") as f:
             f.write("SPECIFICATION Spec\nCONSTANTS DegSlack = %d\n PlanShapes = {\"%s\"}\n PlanDims = {%d}\n PairKind = \"%s\"\n"
-                    "INVARIANTS MomLaw FormLaw Emit\nCHECK_DEADLOCK FALSE\n" % (2 if tier == "thorough" else 0, shape, dim, "same" if (shape, dim) == ("simplex", 3) else "all"))
+                    "INVARIANTS MomLaw FormLaw ProbeLaw Emit\nCHECK_DEADLOCK FALSE\n" % (2 if tier == "thorough" else 0, shape, dim, "same" if (shape, dim) == ("simplex", 3) else "all"))
         jobs.append((cfg, shape, dim))
     plans = {}
     try:
         with cf.ThreadPoolExecutor(max_workers=4) as ex:
-            futs = [(ex.submit(vlib.tlc, "Assembly", j[0], timeout=900, xmx="2g"), j) for j in jobs]
+            futs = [(ex.submit(vlib.tlc, "Assembly", j[0], timeout=900, xmx="2g", light=True), j) for j in jobs]
             for fu, (cfg, shape, dim) in futs:
                 r = fu.result()
                 chk.add_tlc(r, "Assembly gen %s%d" % (shape, dim))
@@ -164,7 +171,8 @@ def judge_batches(chk, cases, max_procs=6, target_weight=30000, timeout=1500):
     verdicts = {}
 
     def one(p):
-        return vlib.tlc("AssemblyCheck", "AssemblyCheck.cfg", env={"C16_BATCH": p}, timeout=timeout, xmx="3g", tag="c16_" + os.path.basename(p))
+        # light: serial GC, C1 only -- these runs are short and interpretive, measured 3-4 x less CPU (and less wall) than the default
+        return vlib.tlc("AssemblyCheck", "AssemblyCheck.cfg", env={"C16_BATCH": p}, timeout=timeout, xmx="3g", tag="c16_" + os.path.basename(p), light=True)
     try:
         with cf.ThreadPoolExecutor(max_workers=max_procs) as ex:
             for r, p, b in zip(ex.map(one, paths), paths, batches):
@@ -184,9 +192,12 @@ def judge_batches(chk, cases, max_procs=6, target_weight=30000, timeout=1500):
     return verdicts
 
 
-def restrict(job, routes):
+def restrict(job, routes, vroutes=False):
+    """the job with the routes a harness binary executes; the matrix-free routes (vroutes) run in the special-route binaries only"""
     j = dict(job)
     j["routes"] = [r for r in job["routes"] if r in routes]
+    if "vroutes" in j and not vroutes:
+        j["vroutes"] = []
     return j
 
 
@@ -208,6 +219,10 @@ def sig_of(c, fl):
         s["op"] = job.get("op", job.get("fn", job.get("bop", {"name": ("bpar:" + "+".join(job["on"])) if job["k"] == "bpar" else "graddiv"})))["name"]
     d = fl["d"]
     s["detail"] = d if isinstance(d, str) and len(d) < 24 else ""
+    if fl["p"] == "ApplyBilinear" and isinstance(d, str):
+        import re
+        mm = re.search(r'r \|-> "(\w+)"', d)       # the matrix-free route of the identity
+        s["detail"] = mm.group(1) if mm else ""
     return s
 
 
@@ -237,7 +252,10 @@ def _run(chk, tier, gdir):
     specials = {k: b for k, b in SPECIAL_BINS.items() if os.path.exists(os.path.join(vlib.VERIF, "harness", b + ".cpp"))}
     twolevel = os.path.exists(os.path.join(vlib.VERIF, "harness", TWOLEVEL_BIN + ".cpp"))
     targets = sorted(set(have.values())) + sorted(set(specials.values())) + ([TWOLEVEL_BIN] if twolevel else [])
-    paths = dict(zip(targets, vlib.build(targets, jobs=6)))
+    # one make for every translation unit of the check, the extension's (lib/c16x.py builds them again: a no-op) included
+    ext = [] if os.environ.get("C16_ONLY") else c16x.harness_names()
+    # (-Og would save 25-35 % of the compile time but makes the 3D special-route harness 1.7 x slower, which dominates the thorough tier)
+    paths = dict(zip(targets + ext, vlib.build(targets + ext)))
     plans = gen_plans(chk, tier)
     if not plans:
         raise vlib.MachineryError("the specification generated no plans")
@@ -268,11 +286,14 @@ def _run(chk, tier, gdir):
                 perbin.setdefault(have[(shape, dim)], []).append(c)
                 bycase[cid] = c
                 for j in jobs:
-                    route_cover.setdefault(jkey(j), [set(j["routes"]), set()])
+                    route_cover.setdefault(jkey(j), [set(j["routes"]) | set(j.get("vroutes", [])), set()])
                 for j in js:
-                    route_cover[jkey(j)][1] |= set(j["routes"])
+                    route_cover[jkey(j)][1] |= set(j["routes"]) | set(j.get("vroutes", []))
                 if (shape, dim) in specials:
-                    sj = [restrict(j, SPECIAL_ROUTES + ["classic"]) for j in jobs if j["k"] == "mat" and set(j["routes"]) & set(SPECIAL_ROUTES)]
+                    sj = [restrict(j, SPECIAL_ROUTES + ["classic"], True) for j in jobs if j["k"] == "mat" and set(j["routes"]) & set(SPECIAL_ROUTES)]
+                    # the identity values of a job whose reference is the classic route are judged in the scalar-route case of the
+                    # same mesh and pair (same matrix, same call); here only the routes are compared with it
+                    sj = [dict(j, ids=[]) if j["ref"] == "classic" else j for j in sj]
                     sj += [j for j in jobs if j["k"] in ("blk", "gd", "bpar")]
                     if sj:
                         cid2 = cid + "_sp"
@@ -280,10 +301,15 @@ def _run(chk, tier, gdir):
                         perbin.setdefault(specials[(shape, dim)], []).append(c2)
                         bycase[cid2] = c2
                         for j in sj:
-                            route_cover[jkey(j)][1] |= set(j["routes"])
+                            route_cover[jkey(j)][1] |= set(j["routes"]) | set(j.get("vroutes", []))
         return perbin
 
     catalogue = mesh_catalogue(tier)
+    only = os.environ.get("C16_ONLY")        # development aid: restrict the run to the meshes whose name matches (never for evidence)
+    if only:
+        import re
+        catalogue = [m for m in catalogue if re.search(only, m[0])]
+        chk.extra["restricted_to"] = only
     perbin = cases_for(catalogue)
     uncovered = {k: sorted(v[0] - v[1]) for k, v in route_cover.items() if v[0] - v[1]}
     if [k for k in uncovered if tuple(json.loads(k)[:2]) in specials]:
@@ -334,7 +360,7 @@ def _run(chk, tier, gdir):
     # ---- seeded re-numbered / re-oriented variants (vertex and cell permutation, a rotation of the reference cell per cell;
     #      the admissible rotations come from spec/RefCell.tla through RefCellSanity) ----
     rng = random.Random(vlib.seed())
-    r = vlib.tlc("RefCellSanity", timeout=600)
+    r = vlib.tlc("RefCellSanity", timeout=600, light=True)
     chk.add_tlc(r, "RefCellSanity (rotation tables)")
     rots = {(c["fam"], c["dim"]): c["rot"] for c in r.printed}
     nvar = 3 if tier == "thorough" else 1
@@ -442,7 +468,10 @@ def _run(chk, tier, gdir):
     chk.rule = ("TLC enumerates (spec/Assembly.tla) every plan = (shape, dim, mesh class, test space, trial space) with every operator / functional "
                 "of the catalogue, the routes defined for it, the cubature degrees Req..Req+slack, the alphas of AssembleTwice and every monomial pair "
                 "(u,v) of the spaces; each plan is executed on every mesh of its class; one evaluation = one job on one mesh (all its routes and "
-                "identities), judged by TLC against spec/AssemblyCheck.tla; non-trivial = the case has at least one job; distinct = mesh x pair")
+                "identities), judged by TLC against spec/AssemblyCheck.tla; non-trivial = the case has at least one job; distinct = mesh x pair; "
+                "blocked, gradient and Burgers-kind scalar jobs additionally carry their matrix-free routes (apply1/apply2 with blocked vectors, "
+                "Burgers vector assemblers / jobs, voxel defect, GradOperatorAssembler vector variant): route(x) = A_ref x for a generic x, the "
+                "repeat semantics of the route, and the exact value of (v e_row)^T route(P) for every probe field P x test monomial v of degree <= 1 x row")
     for d in full[:3]:
         chk.sample({"id": d["id"], "n": d["n"], "jobs": [j["spec"].get("op", j["spec"].get("fn", j["spec"].get("bop", j["spec"]["k"]))) for j in d["jobs"]][:6], "verdict": verdicts[d["id"]]})
     chk.assumptions = [
@@ -451,10 +480,13 @@ def _run(chk, tier, gdir):
         "the interpolant of a monomial is formed by the harness from point values at entity barycentres in the specification's dof numbering "
         "(disc1: FEAT's own node functionals)",
         "the claimed mesh class (box / affine / general) is verified by the specification from the dumped integer coordinates",
-        "threading is out of scope (C17): DomainAssembler runs with 0 worker threads"]
+        "threading is out of scope (C17): DomainAssembler runs with 0 worker threads",
+        "matrix-free routes: apply2 is called with the one space of a blocked job in both roles (rectangular apply2 is covered by the scalar "
+        "jobs on mixed pairs); BurgersAssemblerCarreau::assemble_vector (non-linear viscosity) and StokesFBMAssembler are not reached"]
     # extension (lib/c16x.py): TraceAssembler selection machine + facet integrals, error computers / function-integral jobs, filter
     # assemblers, remaining common operators; adds to chk.traces
-    c16x.run_ext(chk)
+    if not os.environ.get("C16_ONLY"):
+        c16x.run_ext(chk)
 
 
 
